@@ -62,6 +62,22 @@ CHECKS = {
         technique="barrier/gate walks on SSA (result-or-own-cancellation, limit guards, done-check after mutation) + map read-before-delete ordering + dataflow provenance of retry attempts",
         text="Level 'other', four structural conditions: a worker returns without reporting only behind a test of its own context; every runWorker call is guarded by the configured concurrency predicates (shape checked) and created jobs are run; every state mutation that can complete catch-up is followed by checkDone before the coordinator blocks; retry attempts are read before cleanup, derive from the previous attempt and only increment. Liveness under fairness and statistics-vs-reality are not decided.",
         design="DESIGN.md §3 C13"),
+    "C03": dict(
+        technique="gate walks on SSA over the sampling session (verified-before-counted, nothing-returned-is-not-success, cancellation classified by the caller's context) + dataflow provenance of the stored result + guarded-by on the sampling result",
+        text="Level 'other': decides that light availability reports success only across the path on which every selected sample was fetched and verified by the getter, that a sample is recorded as done only behind a nil error and a non-empty verified response for that coordinate, that the persisted result derives from the session's own samples, that failures map to ErrNotAvailable and the caller's cancellation is passed on, and that the sampling result is guarded by its lock. Probability arithmetic and the number of samples needed are not decided.",
+        design="DESIGN.md §3 C03"),
+    "C14": dict(
+        technique="who-may-call + dominator check of the cutoff filter over every producing return + dataflow provenance of the cutoff + guarded-by obligations + polarity-aware gate walk from each lock acquisition to each checkpoint store",
+        text="Level 'other': decides that Pruner.Prune is called only from the round, retry and header-delete sites with headers from findPruneableHeaders; that every header slice returned for pruning passed the head-time-minus-window filter; that an archival node removes only the parity quadrant; that the checkpoint is accessed only under checkpointMu; that LastPrunedHeight is stored only behind a comparison with the current value made under the same lock hold. Height estimation, termination and eventual pruning are not decided.",
+        design="DESIGN.md §3 C14"),
+    "C15": dict(
+        technique="dataflow identity of header/square/height at every store call + gate walks (publish only across store success, failure sides never reach success or Put) + sibling agreement of the window/archival policy",
+        text="Level 'other': decides that at every storeEDS call the header was constructed over the very square being stored and from the same fetched block, that Put* receives that header's roots and height, that dedup shortcuts are height-keyed, that broadcasts and returned headers are reachable only across a successful store and failures are reported, that storeEDS, full.SharesAvailable and the listener's historic drop implement the same window/archival policy, and full availability's error mapping. Histories of announcements and published-once are not decided.",
+        design="DESIGN.md §3 C15"),
+    "C16": dict(
+        technique="pairwise binding gates on SSA (each required field pair compared on a rejecting branch before success) + dataflow sources of message id/hash + enumeration of first-party acceptance sites",
+        text="Level 'other': decides that ExtendedHeader.Validate returns nil only across rejecting comparisons of each field pair the property names and the success edges of commit verification and the ValidateBasic calls, that Verify binds adjacent and non-adjacent headers by the named pairs, that MsgID and Hash derive only from the commit's block id, and lists first-party acceptance sites that call Validate. Signature arithmetic and the dependency's sync pipeline are not decided.",
+        design="DESIGN.md §3 C16"),
     "C17": dict(
         technique="lock-order graph with cycle detection (held sets over the CFG, calls and VTA-resolved function values) + guarded-by obligations propagated to root callers + gate walks on status transitions and offers",
         text="Level 'other': decides that the lock-order graph of the peers package has no cycle (through calls and callbacks), that pool/queue/manager state is accessed only under its mutex on every call path, that a peer is offered only if active, promoted only behind a validated hash, added or offered only behind the blacklist/unreachable check for that same peer, re-activated only from cool-down/absent/removed, and that the active counter changes only behind the matching status test. Wake-ups and timing are not decided.",
